@@ -433,6 +433,21 @@ func apiJobs(tier string) []Job {
 		params := append(append([]int{0}, ringParams(pr[0])...), ringParams(pr[1])...)
 		out = append(out, Job{Pkg: "geometry", Harness: "H_API_PolyPoly", Params: params, Timeout: 120, Scale: true, Contracts: c, NoCover: i > 0})
 	}
+	// mixed index configurations: only one of the two polygons indexed (either one, both index kinds), both indexed
+	big4 := []ipt{{0, 0}, {4, 0}, {4, 4}, {0, 4}}
+	for _, pr := range [][2][]ipt{{big4, sq1}, {sq1, big4}, {curatedRings[0], tri}} {
+		for _, kind := range []int{1, 2, 3, 6, 4, 5} {
+			params := append(append([]int{kind}, ringParams(pr[0])...), ringParams(pr[1])...)
+			out = append(out, Job{Pkg: "geometry", Harness: "H_API_PolyPoly", Params: params, Timeout: 120, Scale: true, Contracts: c, NoCover: true})
+		}
+	}
+	// an indexed polygon against a rectangle large enough to contain it
+	for _, kind := range []int{1, 2} {
+		params := append([]int{kind, 4, 4}, ringParams(sq1)...)
+		out = append(out, Job{Pkg: "geometry", Harness: "H_API_Rect", Params: params, Timeout: 120, Scale: true, Contracts: c, NoCover: true})
+		params = append([]int{kind, 4, 3}, ringParams(tri)...)
+		out = append(out, Job{Pkg: "geometry", Harness: "H_API_Rect", Params: params, Timeout: 120, Scale: true, Contracts: c, NoCover: true})
+	}
 	// inner shapes with >= 16 points (bounding-rectangle shortcut of ringContainsRing) against a notched outer ring
 	notched := []ipt{{0, 0}, {10, 0}, {10, 8}, {6, 8}, {5, 2}, {4, 8}, {0, 8}}
 	round16 := []ipt{{2, 0}, {3, 0}, {4, 0}, {5, 0}, {6, 1}, {6, 2}, {6, 3}, {5, 4}, {4, 4}, {3, 4}, {2, 4}, {1, 4}, {0, 3}, {0, 2}, {0, 1}, {1, 0}}
@@ -589,7 +604,7 @@ func init() {
 func init() {
 	propMeta["C10"] = PropMeta{
 		Bounds: map[string]interface{}{
-			"quick":    "MultiPoint / MultiLineString / MultiPolygon / GeometryCollection / FeatureCollection with 0..3 fixed children (empties, duplicates, a nested collection, mixed kinds) x probe objects Point / LineString / Polygon / Rect / GeometryCollection (with an empty part in the middle, last or first) under ALL real translations x child-index threshold 0, 1, 2, 3 (off, always, exact count, count+1); child search with nondeterministic stop; tidwall/rtree executed from its SSA",
+			"quick":    "MultiPoint / MultiLineString / MultiPolygon / GeometryCollection / FeatureCollection with 0..3 fixed children (empties, duplicates, a nested collection, mixed kinds) x probe objects Point / LineString / Polygon / Rect / GeometryCollection (with an empty part in the middle, last or first) under ALL real translations x child-index threshold 0, 1, 2, 3 (off, always, exact count, count+1); child search with nondeterministic stop, for the probe's rectangle and for an ARBITRARY query rectangle; tidwall/rtree executed from its SSA",
 			"thorough": "same",
 		},
 		Outside:     []string{"children with symbolic coordinates (children are fixed shapes; the probe moves)", "more than 3 children, so the child R-tree is a single leaf", "Circle children"},
@@ -612,6 +627,10 @@ func init() {
 						}
 						out = append(out, Job{Pkg: "geojson", Harness: "H_Coll", Params: []int{ctype, cfg, pk, idx}, Timeout: 120, Scale: true, Contracts: c, NoCover: pk+idx > 0})
 					}
+				}
+				// child search with an arbitrary query rectangle (it may cover the whole collection, or be degenerate)
+				for idx := 0; idx <= 3; idx++ {
+					out = append(out, Job{Pkg: "geojson", Harness: "H_Coll", Params: []int{ctype, cfg, 0, idx, 1}, Timeout: 120, Contracts: c, NoCover: true})
 				}
 			}
 		}
